@@ -20,6 +20,48 @@ inline size_t gen_parse_input(Src& s, Ctx& ctx, size_t n_aux, unsigned& placemen
         if (data.size() > 65535) data.resize(65535);
         return b0 % total;
     }
+    if (b0 >= 232) {
+        // TYPED-DECODER mode: a layer of an option-bearing class carrying 1..3 raw options whose codes are drawn from
+        // the small code range the typed getters decode and whose bodies are arbitrary bytes; serialised and parsed
+        // back, so that every typed option decoder sees hostile option bodies inside an otherwise well-formed packet
+        using namespace Tins;
+        ctx.label("typed-decoder-input");
+        placement = s.u8() & 7;
+        std::unique_ptr<PDU> p;
+        std::vector<std::string> scratch_prog;
+        const char* cls = "RawPDU";
+        unsigned nopt = 1 + (unsigned)s.range(0, 2);
+        auto body = [&](size_t align8) -> std::vector<uint8_t> {
+            size_t n = s.range(0, 40);
+            if (align8) n = ((n + 2 + 7) / 8) * 8 - 2;  // ICMPv6 options are a multiple of 8 bytes including type+length
+            return s.bytes(n);
+        };
+        try {
+            switch (s.range(0, 6)) {
+                case 0: { ICMPv6* q = new ICMPv6((ICMPv6::Types)(s.boolean() ? 134 : 135)); p.reset(q); cls = "ICMPv6";
+                          for (unsigned i = 0; i < nopt; ++i) { std::vector<uint8_t> b = body(1); q->add_option(ICMPv6::option((uint8_t)s.range(0, 40), b.begin(), b.end())); } break; }
+                case 1: { DHCPv6* q = new DHCPv6(); p.reset(q); cls = "DHCPv6";
+                          for (unsigned i = 0; i < nopt; ++i) { std::vector<uint8_t> b = body(0); q->add_option(DHCPv6::option((uint16_t)s.range(0, 45), b.begin(), b.end())); } break; }
+                case 2: { Dot11Beacon* q = new Dot11Beacon(); p.reset(q); cls = "Dot11Beacon";
+                          for (unsigned i = 0; i < nopt; ++i) { std::vector<uint8_t> b = body(0); uint8_t c = s.chance(15) ? 221 : (uint8_t)s.range(0, 60); q->add_option(Dot11::option(c, b.begin(), b.end())); } break; }
+                case 3: { TCP* q = new TCP(); p.reset(q); cls = "TCP";
+                          for (unsigned i = 0; i < nopt; ++i) { std::vector<uint8_t> b = s.bytes(s.range(0, 12)); q->add_option(TCP::option((TCP::OptionTypes)s.range(0, 16), b.begin(), b.end())); } break; }
+                case 4: { IP* q = new IP("1.2.3.4", "4.3.2.1"); p.reset(q); cls = "IP";
+                          for (unsigned i = 0; i < nopt; ++i) { std::vector<uint8_t> b = s.bytes(s.range(0, 12)); q->add_option(IP::option(IP::option_identifier((uint8_t)s.u8()), b.begin(), b.end())); } break; }
+                case 5: { DHCP* q = new DHCP(); p.reset(q); cls = "DHCP";
+                          for (unsigned i = 0; i < nopt; ++i) { std::vector<uint8_t> b = body(0); q->add_option(DHCP::option((uint8_t)s.range(1, 82), b.begin(), b.end())); } break; }
+                default: { PPPoE* q = new PPPoE(); q->code(s.boolean() ? 9 : 7); p.reset(q); cls = "PPPoE";
+                          static const uint16_t TG[] = {0x0101, 0x0102, 0x0103, 0x0104, 0x0105, 0x0110, 0x0201, 0x0202, 0x0203, 0};
+                          for (unsigned i = 0; i < nopt; ++i) { std::vector<uint8_t> b = body(0); q->add_tag(PPPoE::tag((PPPoE::TagTypes)Endian::host_to_be(TG[s.pick(10)]), b.begin(), b.end())); } break; }
+            }
+            enforce_capacity(*p, ctx, scratch_prog);
+            data = p->serialize();
+        } catch (const std::exception&) {
+            data.clear();
+        }
+        for (size_t i = 0; i < E.size(); ++i) if (std::string(E[i].name) == cls) return i;
+        return 0;
+    }
     ctx.label("structured-input");
     placement = s.u8() & 7;
     BuildOpts o;
